@@ -316,8 +316,8 @@ func c18MoreFacts(e *ext) {
 //     SetDefaults_LowNodeLoadArgs; the pool fields SetDefaults_LowNodeLoadNodePools inherits when nil,
 //   - filterNodes: whether a `nodeSelector == nil` test returns early, and whether the range body skips
 //     `processedNodes.Has(…)` with `continue` at its top level (for every pool),
-//   - processOneNodePool: the slices whose elements are inserted into processedNodes, and that those loops follow the
-//     evictPodsFromSourceNodes call; Balance: processedNodes is created before the loop over the pools.
+//   - processOneNodePool: the slices whose elements are inserted into processedNodes, how many returning guards and how
+//     many filterRealAbnormalNodes calls precede those loops, and whether the evictPodsFromSourceNodes call does; Balance: processedNodes is created before the loop over the pools.
 func c18PoolFacts(e *ext) {
 	dv := "pkg/descheduler/apis/config/v1alpha2"
 	dl := "pkg/descheduler/framework/plugins/loadaware"
@@ -494,36 +494,51 @@ func c18PoolFacts(e *ext) {
 	fmt.Fprintf(&e.out, "def filterNodesSkipsProcessed : Bool := %v\n", hasSkip)
 	// ---- processedNodes.Insert loops / Balance
 	var inserts []string
-	afterEvict := true
+	guardsBefore, marksBefore, evictBefore := 0, 0, false
 	if fd := e.funcDecl(dl, "LowNodeLoad", "processOneNodePool"); fd != nil && fd.Body != nil {
-		evictPos := token.NoPos
+		guards, marks, evicted := 0, 0, false
 		for _, st := range fd.Body.List {
-			if es, ok := st.(*ast.ExprStmt); ok {
-				if c, ok := es.X.(*ast.CallExpr); ok && exprStr(c.Fun) == "evictPodsFromSourceNodes" {
-					evictPos = st.Pos()
+			switch x := st.(type) {
+			case *ast.IfStmt:
+				if len(x.Body.List) > 0 {
+					if _, ok := x.Body.List[len(x.Body.List)-1].(*ast.ReturnStmt); ok {
+						guards++
+					}
 				}
-			}
-			rs, ok := st.(*ast.RangeStmt)
-			if !ok {
-				continue
-			}
-			ins := false
-			ast.Inspect(rs.Body, func(n ast.Node) bool {
-				if c, ok := n.(*ast.CallExpr); ok && exprStr(c.Fun) == "processedNodes.Insert" {
-					ins = true
+			case *ast.AssignStmt:
+				if len(x.Rhs) == 1 {
+					if c, ok := x.Rhs[0].(*ast.CallExpr); ok && exprStr(c.Fun) == "filterRealAbnormalNodes" {
+						marks++
+					}
 				}
-				return true
-			})
-			if ins {
-				inserts = append(inserts, exprStr(rs.X))
-				if evictPos == token.NoPos || rs.Pos() < evictPos {
-					afterEvict = false
+			case *ast.ExprStmt:
+				if c, ok := x.X.(*ast.CallExpr); ok && exprStr(c.Fun) == "evictPodsFromSourceNodes" {
+					evicted = true
+				}
+			case *ast.RangeStmt:
+				ins := false
+				ast.Inspect(x.Body, func(n ast.Node) bool {
+					if c, ok := n.(*ast.CallExpr); ok && exprStr(c.Fun) == "processedNodes.Insert" {
+						ins = true
+					}
+					return true
+				})
+				if ins {
+					if len(inserts) == 0 {
+						guardsBefore, marksBefore, evictBefore = guards, marks, evicted
+					} else if guards != guardsBefore {
+						e.fail("processOneNodePool: a returning guard sits between the processedNodes.Insert loops")
+					}
+					inserts = append(inserts, exprStr(x.X))
 				}
 			}
 		}
 	}
+	sort.Strings(inserts) // the order of the two loops does not matter
 	fmt.Fprintf(&e.out, "def processedInsertLoops : List String := %s\n", c18LeanList(inserts))
-	fmt.Fprintf(&e.out, "def processedInsertAfterEvict : Bool := %v\n", afterEvict && len(inserts) > 0)
+	fmt.Fprintf(&e.out, "def processedInsertGuardsBefore : Int := %d\n", guardsBefore)
+	fmt.Fprintf(&e.out, "def processedInsertMarkCallsBefore : Int := %d\n", marksBefore)
+	fmt.Fprintf(&e.out, "def processedInsertAfterEvict : Bool := %v\n", evictBefore)
 	shared := false
 	if fd := e.funcDecl(dl, "LowNodeLoad", "Balance"); fd != nil && fd.Body != nil {
 		declared := false
